@@ -15,6 +15,7 @@ class Summary(dict):
         xc = s.setdefault('xcheck', {'checked': 0, 'agree': 0, 'unknown': 0, 'disagree': []})
         for k in ('checked', 'agree', 'unknown'): xc[k] += eng.xcheck[k]
         xc['disagree'] += eng.xcheck['disagree'][:3]
+        if getattr(eng, 'no_model', 0): s.inconclusive(f'{eng.no_model} completed path(s) had no model under their completion constraints (nothing was reported for them)')
     def sample(s, x, cap=6):
         if len(s['samples']) < cap: s['samples'].append(x)
     def inconclusive(s, t):
